@@ -49,10 +49,14 @@ type scenario struct {
 	// Collide: a foreign Widget b exists before the rollout, which therefore stops in phase p2 with a
 	// collision and never gets to report what it controls; teardown starts from that state
 	Collide bool `json:"collide"`
+	// SliceUnowned: (with Sliced) after the rollout the ObjectSlices lose their owner references -
+	// as after the package deployer re-created them - so that the teardown pass has to write to
+	// them again before it can read the phases' objects
+	SliceUnowned bool `json:"sliceUnowned,omitempty"`
 }
 
 func (sc scenario) name() string {
-	return fmt.Sprintf("B1 phases=%d delegated=%03b archive=%v holds=%v restarts=%d takeover=%v conflicts=%d rearchive=%v admissionFaults=%d foreground=%v sliced=%v graceful=%v collide=%v", sc.N, sc.Mask, sc.Archive, sc.Holds, sc.Restarts, sc.TakeOver, sc.Conflicts, sc.Rearchive, sc.AdmissionFaults, sc.Foreground, sc.Sliced, sc.Graceful, sc.Collide)
+	return fmt.Sprintf("B1 phases=%d delegated=%03b archive=%v holds=%v restarts=%d takeover=%v conflicts=%d rearchive=%v admissionFaults=%d foreground=%v sliced=%v graceful=%v collide=%v sliceUnowned=%v", sc.N, sc.Mask, sc.Archive, sc.Holds, sc.Restarts, sc.TakeOver, sc.Conflicts, sc.Rearchive, sc.AdmissionFaults, sc.Foreground, sc.Sliced, sc.Graceful, sc.Collide, sc.SliceUnowned)
 }
 
 func system(sc scenario) *world.System {
@@ -85,6 +89,13 @@ func system(sc scenario) *world.System {
 			w.MustCreate(world.NewObjectSet("x", nil, nil))
 			if !osw.Settle(w, 40, true) {
 				panic("c04: rollout did not settle")
+			}
+			if sc.SliceUnowned {
+				for _, k := range w.S.SortedKeys() {
+					if k.Kind == "ObjectSlice" {
+						_ = w.Edit(k, func(c map[string]any) { delete(c["metadata"].(map[string]any), "ownerReferences") })
+					}
+				}
 			}
 			if sc.Collide {
 				if o := w.S.Objs[world.KeyOf("Widget", world.NS, "a")]; o == nil {
@@ -416,6 +427,7 @@ func scenarios(quick bool) []scenario {
 			out = append(out, scenario{N: 2, Mask: 0, Archive: true, Graceful: true, Conflicts: 1}, scenario{N: 3, Mask: 0b010, Archive: true, Graceful: true})
 			out = append(out, scenario{N: 2, Mask: 0, Archive: true, Holds: []string{"b"}, Sliced: true, Restarts: 1}, scenario{N: 2, Mask: 0b01, Archive: true, Holds: []string{"g"}, Sliced: true})
 			out = append(out, scenario{N: 2, Mask: 0, Archive: true, Holds: []string{"a"}, Rearchive: true})
+			out = append(out, scenario{N: 2, Mask: 0, Archive: true, Sliced: true, SliceUnowned: true, Conflicts: 1}, scenario{N: 2, Mask: 0, Sliced: true, SliceUnowned: true, Conflicts: 1, Restarts: 1})
 		} else {
 			out = append(out, scenario{N: 2, Mask: 0, Collide: true, Holds: []string{"a"}}, scenario{N: 3, Mask: 0, Collide: true, Restarts: 1})
 			out = append(out, scenario{N: 2, Mask: 0, Graceful: true, Restarts: 1}, scenario{N: 2, Mask: 0b10, Holds: []string{"b"}, Graceful: true})
